@@ -344,7 +344,8 @@ def run(ctx):
               # ---------------------------------------------------------- T: seeded float rasters, metamorphic
               ("float_metamorphic", meta_jobs(rng, ctx.pick(300, 3000)), 4)]
     jobs = [j for _, js, _ in groups for j in js]
-    cases = core.run_jobs("spectral_worker", jobs)          # one pool: import + JIT once per process
+    # few processes in quick: every (kernel, per-band layout) pair is compiled once per process
+    cases = core.run_jobs("spectral_worker", jobs, nproc=ctx.pick(6, 16))
     k = 0
     for tag, js, par in groups:
         part = cases[k:k + len(js)]
